@@ -741,4 +741,23 @@ theorem per_pair_addressing_post_empty (d : Data) (c : Config) (code0 : List Cmd
 example : ([Cmd.rot ⟨.x, 16, 4⟩ 5, .set 7 3, .qfree 5].all (Cmd.simpleFor 0) = true) ∧
     Gen.layout.okFields = ((10 : Nat) : Int) := by decide
 
+/-! ## (j) host-side post-processing, by role -/
+
+/-- **`creator_postprocess_off`.** The `EprMeasureResult` objects every creating API form hands to the
+host (`create_measure`, `create_rsp`, and the deprecated `create(tp=M)`, `create(tp=R)`; flags read off
+the real objects) have `post_process = False`, and with `post_process = False` the real
+`measurement_outcome` is the raw outcome for every Bell state, basis and raw outcome: the CREATOR never
+flips — the correction (quantum or classical) belongs to the receiver's half only. -/
+theorem creator_postprocess_off :
+    (Gen.hostPostProcess.filter (fun r => r.2.1 == "create")).all (fun r => r.2.2.2 == false) = true ∧
+    (Gen.hostPostProcess.filter (fun r => r.2.1 == "create")).map (·.1) =
+      ["create_measure", "create_rsp", "create(tp=M)", "create(tp=R)"] ∧
+    Gen.postOffTable.all (fun r => r.2.2.2 == some r.2.2.1) = true := by
+  refine ⟨by decide, by decide, post_off_identity⟩
+
+/-- on the receiving side the flag is the expectation -/
+theorem receiver_postprocess_follows_expectation :
+    (Gen.hostPostProcess.filter (fun r => r.2.1 == "recv")).all (fun r => r.2.2.2 == r.2.2.1) = true ∧
+    (Gen.hostPostProcess.filter (fun r => r.2.1 == "recv")).length = 3 := by decide
+
 end NQ.C10
